@@ -12,7 +12,7 @@ func init() { registry["C09"] = propC09 }
 
 func propC09() *Property {
 	return &Property{
-		ID: "C09",
+		ID:          "C09",
 		Explanation: "Static path-fact rules on the three gatekeepers and their wiring. Decided: (R1) the closure that constructs outbox entries returns the activity only on paths that know the owning actor's id is non-nil and that activity.ActorIdentifier().String() equals it; every other return is a NewFailure item, never nil (impostors appear in place as error items); (R2) the same for replies with comment.ParentIdentifier() and the post's id; (R3) wiring: the \"outbox\" collection receives R1's closure and \"replies\"/\"comments\" receive R2's, Collection.construct is stored only from the constructor's parameter, every delivered element of a page is construct(elements[k], c.id) stored at its own slot and following pages inherit the same construct; (R4) NewPostFromObject succeeds only after a loop over all creators (after the fan-out joined) in which every *Actor either has a nil id together with a nil post id, or both non-nil with equal Host — everything else reaches the 'forged creators' error; (R5) the identifier accessors return the validated id fields and nothing else. Not decided: end-to-end behaviour on generated worlds; that string equality of URLs is the right notion of identity.",
 		Assumptions: []string{"the ids compared are the validated ids established by C02"},
 		Rules: []Rule{
@@ -94,7 +94,7 @@ func c09Gate(c *Ctx, ctorName, producer, accessor string) {
 			c.bad(gname+"/return:item", pos, gname, "the item returned as genuine is not the one built by "+producer)
 			continue
 		}
-		if pc.Call.Args[0] != ssa.Value(g.Params[0]) || pc.Call.Args[1] != ssa.Value(g.Params[1]) {
+		if unwrapLoad(pc.Call.Args[0]) != ssa.Value(g.Params[0]) || unwrapLoad(pc.Call.Args[1]) != ssa.Value(g.Params[1]) {
 			c.bad(gname+"/return:item", pos, gname, producer+" is not applied to the element and source the collection hands in")
 			continue
 		}
@@ -409,7 +409,7 @@ func c09R5(c *Ctx) {
 			okV := false
 			why := "returns something other than the validated id field"
 			if u, ok := v.(*ssa.UnOp); ok && u.Op == token.MUL && a.field != "" {
-				if fa, ok := u.X.(*ssa.FieldAddr); ok && fieldOf(fa).Name() == a.field && fa.X == ssa.Value(fn.Params[0]) {
+				if fa, ok := u.X.(*ssa.FieldAddr); ok && fieldOf(fa).Name() == a.field && unwrapLoad(fa.X) == ssa.Value(fn.Params[0]) {
 					okV = true
 					if ef := errSibling(fieldOf(fa), structOwner(fa)); ef != nil {
 						// pair field: only under its Err == nil
@@ -422,7 +422,7 @@ func c09R5(c *Ctx) {
 				if sc := call.Call.StaticCallee(); sc != nil && sc.Name() == a.via {
 					// receiver: a.actor under actorErr == nil
 					if u, ok := call.Call.Args[0].(*ssa.UnOp); ok {
-						if fa, ok := u.X.(*ssa.FieldAddr); ok && fa.X == ssa.Value(fn.Params[0]) {
+						if fa, ok := u.X.(*ssa.FieldAddr); ok && unwrapLoad(fa.X) == ssa.Value(fn.Params[0]) {
 							okV = nn.pairGuardedFactOnly(fa, b)
 							why = "delegates to " + fieldOf(fa).Name() + " without its error being known nil (nil dereference)"
 						}
